@@ -188,6 +188,9 @@ BUILTIN_EXC_PARENT = {
 }
 
 
+_HEAPN = 0
+
+
 class State:
     def __init__(self):
         self.env = {}
@@ -200,6 +203,11 @@ class State:
         self.flags = {}
         self.subst = []        # (uninterpreted constant, value) pairs learnt from assumed equalities
         self.known = {}        # z3 ast id -> True/False for conditions already decided on this path
+        # container contents of pre-existing heap objects are read through a content-state id (sid):
+        # heap_epoch is None (sid == object id) or an uninterpreted Int->Int function chosen after a
+        # whole-heap havoc; heap_writes lists (object id, sid) pairs for objects written since, latest last
+        self.heap_epoch = None
+        self.heap_writes = []
 
     def fork(self):
         s = State.__new__(State)
@@ -213,7 +221,43 @@ class State:
         s.flags = dict(self.flags)
         s.subst = list(self.subst)
         s.known = dict(self.known)
+        s.heap_epoch = self.heap_epoch
+        s.heap_writes = list(self.heap_writes)
         return s
+
+    def sid(self, rid):
+        """Content-state id of the heap object `rid` in this state."""
+        base = self.heap_epoch(rid) if self.heap_epoch is not None else rid
+        for (r, n) in self.heap_writes:
+            base = n if r.get_id() == rid.get_id() else z3.If(rid == r, n, base)
+        return base
+
+    def heap_write(self, rid, tag="w"):
+        """The object `rid` is about to change: returns (old sid, new sid); every other object keeps its contents."""
+        global _HEAPN
+        old = self.sid(rid)
+        _HEAPN += 1
+        new = z3.Int("sid!%s!%d" % (tag, _HEAPN))
+        self.heap_writes.append((rid, new))
+        self.flags = dict(self.flags)
+        self.flags.pop("elem_facts", None)
+        return old, new
+
+    def heap_havoc(self, tag="h"):
+        """Contents of every pre-existing container may have changed (callee frame `*`, loop head)."""
+        global _HEAPN
+        _HEAPN += 1
+        self.heap_epoch = z3.Function("epoch!%s!%d" % (tag, _HEAPN), z3.IntSort(), z3.IntSort())
+        self.heap_writes = []
+        self.flags = dict(self.flags)
+        self.flags.pop("elem_facts", None)
+
+    def heap_sig(self):
+        return (id(self.heap_epoch), tuple((a.get_id(), b.get_id()) for a, b in self.heap_writes))
+
+    def same_heap(self, other):
+        return self.heap_epoch is other.heap_epoch and len(self.heap_writes) == len(other.heap_writes) and all(
+            a[0].get_id() == b[0].get_id() and a[1].get_id() == b[1].get_id() for a, b in zip(self.heap_writes, other.heap_writes))
 
     def alloc(self, box):
         self.nref += 1
